@@ -217,6 +217,62 @@ Theorem C02_layout_sound_file_rows : forall fi,
     fold_left N.add (map (fun gt => n_of_field 3 gt) gts) 0 = n_of_field 3 (footer_tree fi).
 Proof. exact layout_file_rows. Qed.
 
+(** The specification decoder's own page loop ([decode_pages], which also
+    decodes the bodies) finds, whenever it succeeds, the pages the header walk
+    finds: same offsets, header lengths, sizes, types and value counts. *)
+Theorem C02_layout_sound_decoder_pages : forall fuel rest lf codec dict off ps,
+  decode_pages fuel rest lf codec dict off = Some ps ->
+  exists hs, walk_pages fuel rest off = Some hs /\ Forall2 page_matches ps hs.
+Proof. exact decode_pages_walk. Qed.
+
+(** [verify] itself on a laid out file: whatever it answers, every complaint
+    is about page contents ([body_codes]: decompressed length, CRC, encodings
+    list, v2 row / null counts and row boundaries, level ranges, column type,
+    rows per column, first_row_index against the decoded levels), never about
+    the layout: num_values, total_compressed_size, total_uncompressed_size,
+    data_page_offset, dictionary_page_offset, row_group_total_compressed_size,
+    row_group_total_byte_size, file_num_rows, offset_index_missing_locations,
+    offset_index_length, page_location_offset, page_location_size,
+    offset_index_unreadable cannot be raised. *)
+Theorem C02_layout_sound_verify_complaints : forall fi f codes,
+  file_ok fi = true -> verify (layout_bytes fi) = Some (f, codes) ->
+  forall code, In code codes -> In code body_codes.
+Proof. exact layout_verify_only_body_codes. Qed.
+
+(** Hence [verify = []] as soon as the decoder accepts the page contents.
+    Partial with respect to [C02_layout_full_statement]: the hypothesis
+    [bodies_accepted] (the decoder decodes every page body and raises no
+    content complaint) is established per file by running the extracted decoder
+    on the library's files, and for a specification-following page writer by
+    C02_page_layer / C02_levels_decode / the C04 encodings; the composition
+    "bodies written by the page layer are accepted" is not proved here. *)
+Theorem C02_layout_sound_verify_partial : forall fi,
+  file_ok fi = true -> bodies_accepted fi -> exists f, verify (layout_bytes fi) = Some (f, []).
+Proof. exact layout_verify_modulo_bodies. Qed.
+
+(** The full statement: contents described page by page, each chunk decoded in
+    isolation (not through the file), imply an empty verdict on the file. *)
+Definition page_rows (lf : leaf) (p : page) : nat :=
+  if (l_maxr lf =? 0)%nat then p_nvalues p else count_eq 0 (p_rep p).
+
+Definition chunk_contents_ok (lf : leaf) (md : tval) (nrows : N) (c : chunk_in) : Prop :=
+  exists ps,
+    decode_pages (S (length (chunk_bytes c))) (chunk_bytes c) lf (zdef (get_int 4 md) 0) [] 0 = Some ps /\
+    let ch := {| c_leaf := lf; c_meta := md; c_chunk := TStruct []; c_start := 0; c_pages := ps |} in
+    (forall code, In code (check_chunk ch) -> ~ In code body_codes) /\
+    map (page_rows lf) (data_pages ch) = map (fun p => N.to_nat (pg_nrows p)) (ck_pages c) /\
+    chunk_rows ch = N.to_nat nrows.
+
+Definition contents_ok (fi : file_in) : Prop :=
+  exists schema ls, fi_schema fi = TList T_STRUCT schema /\ leaves_of schema = Some ls /\
+    forall i g, nth_error (fi_groups fi) i = Some g ->
+      length (gi_chunks g) = length ls /\
+      forall j c lf, nth_error (gi_chunks g) j = Some c -> nth_error ls j = Some lf ->
+        chunk_contents_ok lf (the_meta_tree fi i g j c) (group_num_rows g) c.
+
+Definition C02_layout_full_statement : Prop :=
+  forall fi, file_ok fi = true -> contents_ok fi -> exists f, verify (layout_bytes fi) = Some (f, []).
+
 Print Assumptions C02_layout_ids_agree_with_go.
 Print Assumptions C02_layout_sound_footer.
 Print Assumptions C02_layout_sound_chunk_entry.
@@ -227,6 +283,9 @@ Print Assumptions C02_layout_sound_column_index.
 Print Assumptions C02_layout_sound_bloom_filter.
 Print Assumptions C02_layout_sound_row_group.
 Print Assumptions C02_layout_sound_file_rows.
+Print Assumptions C02_layout_sound_decoder_pages.
+Print Assumptions C02_layout_sound_verify_complaints.
+Print Assumptions C02_layout_sound_verify_partial.
 
 (** Non-vacuity: two row groups of two columns (INT32 required): column a has a
     v1 PLAIN page and a v2 PLAIN page and a bloom filter section, column b a
@@ -268,6 +327,16 @@ Example C02_ex_layout_verify :
   (match verify (layout_bytes ex_layout) with Some (f, codes) => Some (length (f_groups f), codes) | None => None end)
   = Some (2%nat, []).
 Proof. vm_compute. reflexivity. Qed.
+
+(* so the hypothesis of C02_layout_sound_verify_partial is satisfiable *)
+Example C02_ex_layout_bodies_accepted : bodies_accepted ex_layout.
+Proof.
+  destruct (verify (layout_bytes ex_layout)) as [[f codes]|] eqn:E.
+  - assert (Hc : codes = []).
+    { pose proof C02_ex_layout_verify as H. rewrite E in H. now inversion H. }
+    exists f, codes. split; [exact E|]. subst codes. intros c [].
+  - pose proof C02_ex_layout_verify as H. rewrite E in H. discriminate.
+Qed.
 
 Example C02_ex_layout_size : length (layout_bytes ex_layout) = 493%nat.
 Proof. vm_compute. reflexivity. Qed.
